@@ -236,6 +236,24 @@ func c18Extra(c *Ctx) {
 			}
 		}
 	}
+	// 3b. dates and times together: the special dates (month ends, leap days real and impossible) with the boundary
+	// and out-of-range times, zones and fractions (date and time checks may not short-circuit one another)
+	var dates []string
+	for _, y := range []int{0, 1, 1900, 1999, 2000, 2023, 2024, 2100, 9999} {
+		for _, md := range []string{"01-01", "01-31", "02-28", "02-29", "02-30", "03-31", "04-30", "04-31", "06-30", "09-31", "12-31", "12-32", "13-01", "00-10", "10-00"} {
+			dates = append(dates, fmt.Sprintf("%04d-%s", y, md))
+		}
+	}
+	times := []string{"00:00:00", "23:59:59", "24:00:00", "23:60:00", "23:59:60", "99:99:99", "12:34:60", "12:60:34", "25:00:00", "00:00:61"}
+	tails := []string{"Z", ".5Z", ".123456789Z", "+00:00", "-23:59", "+24:00", "+05:60", ".000000001+01:00"}
+	for _, d := range dates {
+		for _, t := range times {
+			for _, z := range tails {
+				c18Parse(c, d+"T"+t+z)
+			}
+		}
+	}
+	c.Case()
 	// 4. every fraction length 0..10 with leading/trailing zeros
 	for n := 0; n <= 10; n++ {
 		for _, digits := range []string{"0000000000", "9999999999", "1000000000", "0000000001", "1234567891"} {
